@@ -70,6 +70,11 @@ void DynamicConstructorDataGlobal::reloadPoints(std::function<int(int)> getNumPo
             if (i != -1) t.loaded[i] = true;
         }
     }
+
+    for(auto &t : tensors){ // a complete tensor waiting for its parents is marked by an empty vector, same as in addTensor()
+        if (std::all_of(t.loaded.begin(), t.loaded.end(), [](bool b)->bool{ return b; }))
+            t.loaded.clear();
+    }
 }
 
 void DynamicConstructorDataGlobal::clearTesnors(){
